@@ -192,8 +192,10 @@ def left_test_edges(ctx, body, ignore_debug=True):
 
 
 class TypeState:
-    def __init__(self, ctx):
+    def __init__(self, ctx, world=None):
         self.ctx = ctx
+        self.world = world      # None, or "zero" / "nonzero": the element type's size, fixed per instantiation — edges of size_of::<T>() tests
+                                # that contradict it are not followed
         self.bodies = [b for b in ctx.facts.bodies.values() if b.kind != "Closure" and self_s_prefix(ctx, b) is not None]
         self.summary = {b.path: {N: BOT, S: BOT} for b in self.bodies}
         self.results = {}
@@ -286,6 +288,10 @@ class TypeState:
     def flow(self, b, pre):
         ctx = self.ctx
         edges = left_test_edges(ctx, b)
+        dead = set()
+        if self.world is not None:
+            from rules_protocol import _sizeof_guard_edges
+            dead = {e for e, v in _sizeof_guard_edges(ctx, b).items() if v != self.world}
         st_in = {0: pre}
         st_out = {}
         work = [0]
@@ -295,6 +301,8 @@ class TypeState:
             out = self.transfer_block(b, bb, cur)
             st_out[bb] = out
             for s_ in b.succs(bb, unwind=True):
+                if (bb, s_) in dead:
+                    continue
                 o = out
                 t = b.term(bb)
                 # unwind edge of a call: callee may have changed state arbitrarily per its summary; keep conservative
@@ -315,6 +323,11 @@ class TypeState:
 
 def typestate(ctx):
     return ctx.memo("typestate", lambda: TypeState(ctx))
+
+
+def typestate_world(ctx, world):
+    """the same analysis for element types of size zero / non-zero only (a type's size is fixed per instantiation)"""
+    return ctx.memo("typestate:" + world, lambda: TypeState(ctx, world))
 
 
 # ---------------------------------------------------------------------------
@@ -1106,6 +1119,9 @@ def rule_t_free(ctx):
                 for (x2, s2), e2 in ee.items():
                     if x2 == x and e2 is not True:
                         ok_edges.add((x2, s2))
+        # an edge on which the pending-resize field tests as None is either infeasible here (an element was just removed from the old
+        # table, so there is one) or the old table is gone already: nothing left to free
+        ok_edges |= {e for e, v in left_test_edges(ctx, body).items() if v == N}
         w = _must_pass(body, [c.target], cleared, ok_edges)
         R.inst(fn=body.path, site=c.where(), verdict="frees when empty" if w is None else "VIOLATION")
         if w is None:
